@@ -35,6 +35,20 @@ NOTES = {
     "C17-r2-3": "needed threshold edits landing inside open batches and the batch's own threshold as the reference",
     "C15-r2-3": "NOT reachable by construction: needs a hand-written genesis whose balances overflow uint64 in sum; no history and no export produces it (C15 quantifies over histories)",
     "C19-r2-1": "ids are process-history dependent only across nodes: caught by the replicas of C11",
+    "C11-r3-2": "rare at first (about one run in 300: only 4 order-sensitive average batches in 240 runs); C11 runs now favour the service/oracle group, four providers per feed and a value class where summation order shows in the eighth decimal",
+    "C12-r3-1": "needed the export variant in the key of service import rejections (the as-is rejection is a known finding; the prepared export must import)",
+    "C12-r3-3": "needed farm pools whose reward-kind count exceeds a later, lowered max_reward_categories (governor lowers it in farm runs)",
+    "C13-r3-2": "an outcome difference between executions, not a queue defect: caught by the replicas of C11",
+    "C13-r3-3": "needed the rule that a pool past its end height and off the queue must have been ended",
+    "C14-r3-2": "needed one party holding more than a hundred tokens of a class: genesis arm with a holder of 97-104 tokens",
+    "C15-r3-1": "only visible after export/import: caught by C12 (query comparison)",
+    "C17-r3-2": "only visible after export/import: caught by C12 (raw store comparison)",
+    "C19-r3-1": "only visible after export/import: caught by C12 (raw store comparison, the counter key)",
+    "C19-r3-2": "needed a history of 65536 records: genesis arm with 65531-65535 records identical to what governance creates",
+    "C08-r4-2": "missed at first: in the service+feeds profile every answer was supplied by the feed workload's responder and the respond verdict skipped such answers; the verdict now covers every answer that passes the module's own stateless validation",
+    "C08-r4-3": "same as C08-r4-2",
+    "C12-r4-1": "needed the comparison of the chain before the zero-height preparation with the re-imported one (prep-preserves)",
+    "C16-r4-2": "needed the canonical small operations on a fresh chain (overflow by the parameter value alone) and integer values up to 2^250",
 }
 
 
